@@ -181,7 +181,16 @@ class GenSinkPart:
                    "Elem.TwoRate Elem.Wire Elem.Port Elem.Red Elem.Iface Elem.Compose Elem.AdaptWire Elem.AdaptPort Elem.AdaptBucket "
                    "Elem.AdaptSched Elem.AdaptSrv Elem.AdaptDRR Elem.AdaptTwoRate Elem.AdaptRed Route.Demux Elem.ComposePar "
                    "Elem.ComposeFan Elem.GenSink."]
-    props_files = {"C08": ["Props/C08_GenSink.v", "Props/C08_Net.v", "Props/C08_Pipe.v"]}
+    props_files = {"C08": ["Props/C08_GenSink.v", "Props/C08_Net.v", "Props/C08_Pipe.v", "Props/C08_BridgeSink.v"]}
+
+    # ---- second tie: PacketSink.put translated from the tree under test before the Coq build (fail closed) ----
+    def pre_build(self, prop_id):
+        if prop_id != "C08":
+            return
+        from vlib import framework as fw
+        from props import sink_tie
+        sink_tie.write_extracted_packetsink(fw.REPO, fw.COQ)
+
     weight = 2
     nontrivial_rule = {"C08": "gen: scripted inter-arrival/size draws incl. zero gaps, finite and infinite finish, initial delays; "
                               "sink: random delivery sequences over 1-3 keys with all 8 flag combinations, keyed by flow id or by source; "
@@ -194,6 +203,10 @@ class GenSinkPart:
                               "non-trivial = at least 3 packets (gen: >= 3 emissions; sink: >= 3 deliveries over >= 2 keys; pipeline: >= 4 packets "
                               "injected; pipe: >= 3 packets injected and at least one delivered by the last stage)"}
     trusted_base = {"C08": ["arrival_dist/size_dist/delay_dist are scripted sequences",
+                            "vlib/translate.py (Python ast, fail closed; tables in props/sink_tie.py) regenerates "
+                            "coq/Gen/Extracted_packetsink.v from PacketSink.put of the tree under test before every build; "
+                            "C08_gen_packetsink_put (Props/C08_BridgeSink.v) bridges it to sink_put_rec of the hand-written model; the "
+                            "`if self.debug:` block is dropped, packet.src is the plugin's source number",
                             "kind 'pipeline' (fan-out, DRR, WFQ, generators and sinks in the loop) is checked on the real code by the conservation "
                             "monitor only; its proof side is C08_network_conserves applied to the per-element conservation theorems",
                             "kind 'pipe': the processes and stores of stage k are told apart by renaming the generator objects (run@k, "
